@@ -1,0 +1,62 @@
+//go:build verif
+
+// Contracts for package wkb, read by /verif's govc. Comment-only.
+package wkb
+
+// C04: Read never panics, whatever the reader delivers; it returns an error or a well-formed geometry
+// (C01); count-sized work is preceded by the limit checks. Recursion uses this contract.
+//@ func Read
+//@   ensures res2 == nil ==> wfT(res1)
+//@   ensures res2 != nil ==> res1 == nil
+//@   modifies nothing
+//@   at loop1.before: assert wkbcommon.MaxGeometryElements[1] < 0 || n <= wkbcommon.MaxGeometryElements[1]
+//@   at loop2.before: assert wkbcommon.MaxGeometryElements[2] < 0 || n <= wkbcommon.MaxGeometryElements[2]
+//@   at loop3.before: assert wkbcommon.MaxGeometryElements[3] < 0 || n <= wkbcommon.MaxGeometryElements[3]
+//@   decreases *
+//@   loop 1:
+//@     invariant fresh(mp) && wfMP(mp) && mp.layout == layout && (fresh(mp.flatCoords) || cap(mp.flatCoords) == 0) && (fresh(mp.ends) || cap(mp.ends) == 0)
+//@   loop 2:
+//@     invariant fresh(mls) && wf2(mls) && mls.layout == layout && (fresh(mls.flatCoords) || cap(mls.flatCoords) == 0) && (fresh(mls.ends) || cap(mls.ends) == 0)
+//@   loop 3:
+//@     invariant fresh(mp) && wf3(mp) && mp.layout == layout && (fresh(mp.flatCoords) || cap(mp.flatCoords) == 0) && (fresh(mp.endss) || cap(mp.endss) == 0)
+//@   loop 4:
+//@     invariant fresh(gc) && gc.layout == 0 && (fresh(gc.geoms) || cap(gc.geoms) == 0)
+
+//@ func Unmarshal
+//@   ensures res2 == nil ==> wfT(res1)
+//@   ensures res2 != nil ==> res1 == nil
+//@   modifies nothing
+
+// SQL scanners: total on any driver value; a []byte that decodes to the wrapper's own geometry type is
+// stored (well formed), anything else is an error that leaves the wrapper unchanged
+//@ func Point.Scan
+//@   ensures res == nil ==> p.Point != nil && wf0(p.Point)
+//@   ensures res != nil ==> p.Point == old(p.Point)
+//@   modifies *p
+//@ func LineString.Scan
+//@   ensures res == nil ==> ls.LineString != nil && wf1(ls.LineString)
+//@   ensures res != nil ==> ls.LineString == old(ls.LineString)
+//@   modifies *ls
+//@ func Polygon.Scan
+//@   ensures res == nil ==> p.Polygon != nil && wf2(p.Polygon)
+//@   ensures res != nil ==> p.Polygon == old(p.Polygon)
+//@   modifies *p
+//@ func MultiPoint.Scan
+//@   ensures res == nil ==> mp.MultiPoint != nil && wfMP(mp.MultiPoint)
+//@   ensures res != nil ==> mp.MultiPoint == old(mp.MultiPoint)
+//@   modifies *mp
+//@ func MultiLineString.Scan
+//@   ensures res == nil ==> mls.MultiLineString != nil && wf2(mls.MultiLineString)
+//@   ensures res != nil ==> mls.MultiLineString == old(mls.MultiLineString)
+//@   modifies *mls
+//@ func MultiPolygon.Scan
+//@   ensures res == nil ==> mp.MultiPolygon != nil && wf3(mp.MultiPolygon)
+//@   ensures res != nil ==> mp.MultiPolygon == old(mp.MultiPolygon)
+//@   modifies *mp
+//@ func GeometryCollection.Scan
+//@   ensures res == nil ==> gc.GeometryCollection != nil
+//@   ensures res != nil ==> gc.GeometryCollection == old(gc.GeometryCollection)
+//@   modifies *gc
+//@ func Geom.Scan
+//@   ensures res == nil ==> g.T == old(g.T) || wfT(g.T)
+//@   modifies *g
